@@ -5,8 +5,8 @@ from vlib import cN, cnat, clist, cpair, cbool, coq_print
 
 PID = "C11"
 MODULE, PKG, BIN = "aspen", "./verifh/c11", "c11"
-COQ_IMPORTS = "From Synnax Require Import Common.Base Aspen.Pledge Monitors.Mon_C11."
-CASE_TYPE = "case_t"
+COQ_IMPORTS = "From Synnax Require Import Common.Base Aspen.Pledge Aspen.PledgeCluster Monitors.Mon_C11."
+CASE_TYPE = "acase_t"
 COUNTS = {"quick": 1500, "thorough": 12000}
 SHARD = 100
 PROCS = 8
@@ -66,7 +66,30 @@ def all_pledges(case):
     return out
 
 
-def to_coq(case, r):
+def is_cluster(case):
+    return case.get("kind") == "cluster"
+
+
+def c_cop(o):
+    if o["op"] == "start":
+        return "CStart %s" % cN(o["m"])
+    if o["op"] == "join":
+        return "CJoin %s %s" % (cN(o["m"]), cN(o["key"]))
+    if o["op"] == "close":
+        return "CClose %s" % cN(o["m"])
+    if o["op"] == "reopen":
+        return "CReopen %s" % cN(o["m"])
+    raise ValueError("unknown cluster op %r" % (o,))
+
+
+def to_coq_cluster(case, r):
+    obs = [e for e in r["events"] if e[0] == "CO"]
+    if len(obs) != len(case["ops"]):
+        raise ValueError("cluster script: %d observations for %d ops" % (len(obs), len(case["ops"])))
+    return clist([cpair(c_cop(o), cpair(cbool(e[1]), cN(e[2]), cN(e[3]))) for o, e in zip(case["ops"], obs)])
+
+
+def to_coq_pledge(case, r):
     seen = set()
     ms = []
     for m in case["members"]:
@@ -77,6 +100,12 @@ def to_coq(case, r):
     pls = [cpair(cN(p["p"]), cnat(pmax(p.get("max")))) for p in all_pledges(case)]
     evs = [c_ev(e) for e in r["events"]]
     return cpair(cpair(clist(ms), clist(pls)), clist(evs))
+
+
+def to_coq(case, r):
+    if is_cluster(case):
+        return "CCase (%s)" % to_coq_cluster(case, r)
+    return "PCase (%s)" % to_coq_pledge(case, r)
 
 
 # --------------------------------------------------------------------------- generator
@@ -252,8 +281,53 @@ def gen_guarded(rng):
     return c
 
 
+CLUSTER_IDS = [1, 2, 3, 4, 5]
+
+
+def gen_cluster(rng):
+    """cluster.Open-level script: mostly applicable ops (start first, joins through existing members, close /
+    reopen pairs, joins through reopened and through joined members) plus a share of ops that do not apply"""
+    ops = [{"op": "start", "m": 1}] if rng.random() < 0.95 else []
+    present, closed = ([1] if ops else []), set()
+    nxt = 2
+    for _ in range(rng.choice([2, 3, 4, 4, 5, 6, 7, 8])):
+        x = rng.random()
+        if x < 0.12:                                  # malformed / not applicable
+            ops.append(rng.choice([{"op": "start", "m": rng.choice(CLUSTER_IDS)},
+                                   {"op": "join", "m": rng.choice(CLUSTER_IDS), "key": rng.choice(CLUSTER_IDS + [9])},
+                                   {"op": "reopen", "m": rng.choice(CLUSTER_IDS)},
+                                   {"op": "close", "m": 9}]))
+            o = ops[-1]
+            # keep the bookkeeping right when the op happens to apply
+            if o["op"] == "start" and not present:
+                present.append(o["m"])
+            elif o["op"] == "join" and o["m"] not in present and o["key"] in present and not closed:
+                present.append(o["m"])
+            elif o["op"] == "reopen" and o["m"] in closed:
+                closed.discard(o["m"])
+        elif closed and (x < 0.55 or len(closed) > 1):
+            i = rng.choice(sorted(closed))
+            closed.discard(i)
+            ops.append({"op": "reopen", "m": i})
+        elif present and x < 0.4:
+            i = rng.choice([p for p in present if p not in closed] or present)
+            closed.add(i)
+            ops.append({"op": "close", "m": i})
+        elif present and len(present) < 5:
+            while nxt in present:
+                nxt += 1
+            via = rng.choice(present)
+            ops.append({"op": "join", "m": nxt, "key": via})
+            if not closed:
+                present.append(nxt)
+    return {"kind": "cluster", "ops": ops}
+
+
+CLUSTER_SHARE = 0.06
+
+
 def gen_cases(rng, tier, n):
-    return [gen_guarded(rng) for _ in range(n)]
+    return [gen_cluster(rng) if rng.random() < CLUSTER_SHARE else gen_guarded(rng) for _ in range(n)]
 
 
 # --------------------------------------------------------------------------- judging
@@ -261,7 +335,8 @@ def harness_violation(case, r):
     if r.get("panic"):
         return "panic: " + r["panic"]
     if r.get("hang"):
-        return "hang: the pledge scenario did not finish within 30 s"
+        return ("hang: background gossip did not tell every open node about every node within 5 s"
+                if is_cluster(case) else "hang: the pledge scenario did not finish within 30 s")
     return None
 
 
@@ -270,6 +345,20 @@ def events(r, t):
 
 
 def nontrivial(case, r):
+    if is_cluster(case):
+        # a node joined through a member that had been reopened from its store (or through a joined member)
+        obs = [e for e in r["events"] if e[0] == "CO"]
+        reopened, joined = set(), set()
+        for o, e in zip(case["ops"], obs):
+            if not e[1]:
+                continue
+            if o["op"] == "reopen":
+                reopened.add(o["m"])
+            elif o["op"] == "join":
+                if o["key"] in reopened or o["key"] in joined:
+                    return True
+                joined.add(o["m"])
+        return False
     snaps = {}
     for e in events(r, "SN"):
         snaps.setdefault(e[1], set()).add(json.dumps(e[2]))
@@ -285,6 +374,12 @@ HOW = {0: "delivered", 1: "not_delivered", 2: "response_lost", 3: "cancelled_ctx
 
 
 def histogram(case, r):
+    if is_cluster(case):
+        ks = ["cluster_script"]
+        obs = [e for e in r["events"] if e[0] == "CO"]
+        for o, e in zip(case["ops"], obs):
+            ks.append("cluster_op=%s%s" % (o["op"], "" if e[1] or o["op"] == "close" else "_skipped"))
+        return ks
     ks = ["members=%d" % len(case["members"])]
     npl = len(all_pledges(case))
     ks.append("pledges=%d" % npl)
@@ -317,8 +412,9 @@ _kinds_cache = {}
 
 
 def kinds_of(terms):
-    """viol_kinds of each case term, evaluated by Coq in one call"""
-    out = coq_print(PID, COQ_IMPORTS, "Definition ks := Eval vm_compute in map viol_kinds [ %s ].\nPrint ks." %
+    """judged_kinds (viol_kinds, preceded by 99 when the model does not accept the log) of each pledge-level
+    case term, evaluated by Coq in one call"""
+    out = coq_print(PID, COQ_IMPORTS, "Definition ks := Eval vm_compute in map judged_kinds [ %s ].\nPrint ks." %
                     "\n ; ".join(terms), timeout=900)
     m = re.search(r"ks\s*=\s*(\[.*?\])\s*:", out.replace("\n", " "))
     if not m:
@@ -339,22 +435,51 @@ def kinds_of(terms):
     return res
 
 
+def duplicate_pairs(r):
+    """pairs of pledges handed the same key, each with the latest candidate snapshot of the run that decided"""
+    ev = r["events"]
+    run_of, snap, resp = {}, {}, {}
+    for e in ev:
+        if e[0] == "PS":
+            run_of[e[3]] = e[1]
+        elif e[0] == "SN":
+            snap[e[1]] = e[2]
+        elif e[0] == "RE" and e[4] == 0 and not e[5]:
+            resp.setdefault((run_of.get(e[1]), e[2]), (e[1], list(snap.get(e[1], []))))
+    adm = [(e[1], e[3]) + resp.get((e[1], e[3]), (None, [])) for e in ev if e[0] == "PE" and e[2]]
+    return [(a, b) for i, a in enumerate(adm) for b in adm[i + 1:] if a[1] == b[1]]
+
+
 def tags(case, r):
-    if r is None or "events" not in r:
+    """F6 is attributed only when (a) the model accepts the whole log, (b) the monitor's ONLY objection is 'same
+    key, disjoint approving quorums' — in particular every pledge that was handed a key had the approval of every
+    member of a majority quorum of its coordinator's snapshot (kind 1 absent) — and (c) every such pair was decided
+    on two DIFFERING snapshots that are outside the intersection guard."""
+    if r is None or "events" not in r or is_cluster(case):
         return set()
-    t = to_coq(case, r)
+    t = to_coq_pledge(case, r)
     if t not in _kinds_cache:
         _kinds_cache[t] = kinds_of([t])[0]
-    ks = set(_kinds_cache[t])
-    # exactly the finding: two pledges handed the same key by runs whose approving quorums are
-    # disjoint, and nothing else wrong
-    if ks == {4}:
-        return {KNOWN_TAG}
-    return set()
+    if set(_kinds_cache[t]) != {4}:
+        return set()
+    pairs = duplicate_pairs(r)
+    if not pairs:
+        return set()
+    for a, b in pairs:
+        va, vb = a[3], b[3]
+        if sorted(active_addrs(va)) == sorted(active_addrs(vb)) or compat(va, vb):
+            return set()
+    return {KNOWN_TAG}
 
 
 def neighbours(case, rng):
     out = []
+    if is_cluster(case):
+        for i in range(len(case["ops"])):
+            c = json.loads(json.dumps(case))
+            del c["ops"][i]
+            out.append(c)
+        return out + [gen_cluster(rng) for _ in range(40)]
     for i in range(len(case["ops"])):
         c = json.loads(json.dumps(case))
         del c["ops"][i]
@@ -377,7 +502,9 @@ def neighbours(case, rng):
 
 
 def model_dump(case, r):
-    t = to_coq(case, r)
+    if is_cluster(case):
+        return coq_print(PID, COQ_IMPORTS, "Eval vm_compute in cmodel_dump (%s)." % to_coq_cluster(case, r))[-6000:]
+    t = to_coq_pledge(case, r)
     return coq_print(PID, COQ_IMPORTS, "Eval vm_compute in model_dump (%s)." % t)[-6000:]
 
 
@@ -430,7 +557,7 @@ def extra(ctx):
     for i, w in hv[:5]:
         check.report_case_violation(ctx, cases[i], res.get(i), w)
     if V:
-        terms = [to_coq(cases[i], res[i]) for i in V]
+        terms = [to_coq_pledge(cases[i], res[i]) for i in V]
         for t, ks in zip(terms, kinds_of(terms)):
             _kinds_cache[t] = ks
     before = len(ctx.violations)
@@ -465,8 +592,14 @@ RULE = ("main batch: clusters of 1-7 arbitrating members with per-member candida
         "through themselves / unknown addresses, MaxProposals 1, probes of key 0/4095. A second batch (extra phase) "
         "drops the guard: views up to 3 members behind and joined nodes entering views under the key they were handed. "
         "Non-trivial = >=2 runs, >=2 different candidate snapshots, >=1 juror request that was not plainly "
-        "delivered, >=1 pledge handed a key; distinct by hash.")
-TRUSTED = ["hook aspen/internal/cluster/pledge/export_verif.go (exports the two sentinel errors, add-only)",
+        "delivered, >=1 pledge handed a key; distinct by hash. About 6% of the main batch are cluster.Open-level "
+        "scripts over real clusters with memkv stores (start | join i via m | close | reopen-from-store, incl. ops "
+        "that do not apply): every opened cluster reports its node key and cluster key; non-trivial there = a node "
+        "joined through a reopened or a joined member.")
+TRUSTED = ["cluster-level scripts: the harness only lets a node join while every existing node is open (a join that "
+           "cannot reach a quorum makes cluster.Open panic on its nil result and leaves the coordinator's juror with "
+           "thousands of remembered keys; both are outside the property and reported separately)",
+           "hook aspen/internal/cluster/pledge/export_verif.go (exports the two sentinel errors, add-only)",
            "harness transport wrapper: decides delivery of each juror request, linearises deliveries, view changes and "
            "Candidates() calls under one mutex, attributes Candidates() calls to runs by goroutine id",
            "pledge.Pledge / pledge.Arbitrate / responsible / juror and the freighter mock network run for real"]
